@@ -11,6 +11,10 @@ from . import report
 PROPS = ['C%02d' % i for i in range(1, 21)]
 
 
+import sys as _sys
+_sys.setrecursionlimit(6000)
+
+
 def run_property(pid, repo, tier='quick', seed=0, quiet=False):
     mod = importlib.import_module('sedlint.props.%s' % pid.lower())
     ctx = report.Ctx(pid, repo, tier=tier, seed=seed, quiet=quiet)
